@@ -2,6 +2,7 @@
    examples (two nodes, one record, one shard of three symbols, chunk size 2) -/
 import SemaModel.C14.Pinned
 import SemaModel.C14.Epochs
+import SemaModel.C14.ConcInv
 namespace Sema.C14
 
 /-! the witness: two nodes, shard 7 = [1,2,3] on node 0, owner node 1, chunk size 2; the transfer is
@@ -140,5 +141,65 @@ theorem eReach : WReach eW0 (eW 8) :=
 
 theorem eCovers : Covers (eW 8).cfg (eW 8).ro (eW 8).fo [0, 1, 2] [0] [1] :=
   ⟨by decide, by decide, by decide, by decide⟩
+
+/-! ### three nodes, all synchronising at the same time (non-vacuity of the `…_concurrent` theorems)
+
+Records 0 (node 0) and 1 (node 1), shards 2 = `[1,2,3]` and 4 = `[7]` (node 0), 3 = `[4,5,6]` (node 1);
+chunk size 2.  Under the new list everything is routed to node 2, except shard 4 → node 1: nodes 0 and
+1 send to the same owner at the same time, node 0 runs two goroutines in phase 2.
+Earlier attempts (`cLabels`): node 0 sent record 0 and never saw the reply; node 1 moved its record and
+died after chunk 0 of shard 3 (the owner holds the left-over `[4,5]`). -/
+abbrev cN := Fin 3
+abbrev cK := Fin 5
+def cRo : cK → Option Content := fun k => if k = 0 then some [9] else if k = 1 then some [8] else none
+def cFo : cK → Option Content :=
+  fun k => if k = 2 then some [1, 2, 3] else if k = 3 then some [4, 5, 6] else if k = 4 then some [7] else none
+def cCfg : Cfg cN cK :=
+  { owner := fun _ => 2, fowner := fun k => if k = 4 then 1 else 2, cs := 2, trunc0 := true, sum := wSum }
+def cWhere : cK → cN := fun k => if k = 1 ∨ k = 3 then 1 else 0
+def cS0 : St cN cK := placedSt cWhere cWhere cRo cFo
+def cLabels : List (Label cN cK) :=
+  [.restart 0, .rsend 0 2 [0] false, .fail 0,
+   .restart 1, .rsend 1 2 [1] true, .rdelete 1 [1], .fchunk 1 3 none, .fail 1]
+def cS1 : St cN cK := run cCfg cLabels cS0
+/-- an interleaving: the three processes start, take their snapshots and run their goroutines in turns;
+the chunks of shards 2, 3 (both to node 2) and 4 alternate; threads that have nothing to do are named
+too (they are skipped) -/
+def cSched : List (Tid cN) :=
+  [.main 0, .main 1, .main 2, .main 0, .main 1, .go 2 0, .main 2,
+   .go 0 2, .main 1, .main 2, .go 0 2, .main 1, .main 0, .main 0, .main 2,
+   .go 1 2, .go 0 2, .go 0 1, .go 1 2, .main 0, .go 0 2, .go 0 1, .go 0 2, .go 1 2, .main 2,
+   .go 0 1, .go 1 2, .go 1 0, .go 0 2, .main 0, .main 1]
+def cRkeys : List cK := [0, 1]
+def cFkeys : List cK := [2, 3, 4]
+
+theorem cSumOK : SumOK cCfg :=
+  ⟨fun a b h => enc_inj a b (by simp only [cCfg, wSum] at h; omega), by simp [cCfg, wSum]⟩
+theorem cInit : Init cCfg cRo cFo cS0 := init_placedSt _ _ _ _ _ (fun _ => rfl)
+theorem cReach : Reachable cCfg cS0 cS1 := reachable_run _ _ .init
+theorem cCovers : Covers cCfg cRo cFo [0, 1, 2] cRkeys cFkeys := ⟨by decide, by decide, by decide, by decide⟩
+
+set_option maxRecDepth 4000 in
+/-- under `cSched` every `Sync` returns -/
+theorem cFinished : ∀ n, cCfg.up n = true → finished (crun cCfg cRkeys cFkeys cSched (cinit cS1)) n = true := by decide
+
+/-- the history above, all three nodes synchronising at once -/
+def eSched : List (Tid eN) :=
+  [.main 2, .main 0, .main 1, .main 0, .main 2, .main 1, .go 0 2, .main 2, .main 1, .main 2, .go 0 2,
+   .main 1, .main 0, .main 2, .main 0, .main 1, .main 0]
+theorem eFinished : ∀ n, (eW 8).cfg.up n = true → finished (crun (eW 8).cfg [0] [1] eSched (cinit (eW 8).st)) n = true := by
+  decide
+
+/-- two started non-owners hold the same shard (excluded by `Safe.fc` / `Inv.f4`) -/
+def dCfg : Cfg (Fin 3) (Fin 1) := { owner := fun _ => 2, fowner := fun _ => 2, cs := 2, trunc0 := true, sum := wSum }
+def dS : St (Fin 3) (Fin 1) :=
+  { recs := fun _ _ => none, files := fun n _ => if n = 2 then none else some [1, 2, 3],
+    rconf := fun _ _ => false, fph := fun _ _ => .idle, failed := fun _ => false }
+def dSchedSeq : List (Tid (Fin 3)) :=
+  [.main 0, .main 0, .main 0, .main 0, .go 0 2, .go 0 2, .go 0 2, .go 0 2, .main 0,
+   .main 1, .main 1, .main 1, .main 1, .go 1 2, .go 1 2, .go 1 2, .go 1 2, .main 1]
+def dSchedMix : List (Tid (Fin 3)) :=
+  [.main 0, .main 0, .main 0, .main 0, .main 1, .main 1, .main 1, .main 1,
+   .go 0 2, .go 1 2, .go 0 2, .go 1 2, .go 0 2, .go 1 2]
 
 end Sema.C14
